@@ -388,7 +388,8 @@ def r154(ctx, rep):
         # search directions are projections
         for n in cfg.nodes:
             if n.kind == "stmt" and isinstance(n.ast, ast.Assign) and any(isinstance(t, ast.Name) and t.id == "sd" for t in n.ast.targets):
-                v = n.ast.value
+                from ..inline import expander
+                v = expander(ctx, f, stop=("sd", "grad_proj")).expand(n.ast.value, n.ast)
                 txt = norm(v)
                 ok = ("q[:, n_act:]" in txt) or (isinstance(v, ast.BinOp) and mentions(v, "sd") and mentions(v, "grad_proj")) or _short(v) in ("zeros",)
                 desc = f"{f.local}:{n.line} sd = {txt[:50]}"
@@ -403,6 +404,7 @@ def r155(ctx, rep):
     exc = ctx.facts.exc
     for q in PUBLIC:
         f = ctx.func(q)
+        exc.check(q)
         hits = {c: w for c, w in exc.raises[q].items() if is_subclass(c, "ZeroDivisionError", exc.bases)}
         if hits:
             for c, w in hits.items():
@@ -555,7 +557,8 @@ def _coef_value(coef, sign, seed):
             names[nm] = 0.53 + 0.07 * ((hash(norm(node)) % 89) / 89.0) + 0.01 * seed
             return ast.copy_location(ast.Name(id=nm, ctx=ast.Load()), node)
     import copy as _copy
-    c2 = _T().visit(_copy.deepcopy(coef))
+    from ..inline import _clone
+    c2 = _T().visit(_clone(coef))
     try:
         return sign * float(minieval.ev(c2, minieval.Env(names, attrs)))
     except minieval.Unsupported:
@@ -764,7 +767,8 @@ def r159(ctx, rep):
                                 return nd.args[0]
                             return nd
                     import copy as _copy
-                    t2 = _T().visit(_copy.deepcopy(thr))
+                    from ..inline import _clone
+                    t2 = _T().visit(_clone(thr))
                     ast.fix_missing_locations(t2)
                     try:
                         val = minieval.ev(t2, minieval.Env(names, {}))
@@ -806,3 +810,8 @@ def run(ctx, rep):  # noqa: F811
     k = check_stale_loop_vars(ctx, rep, "R15.8", PUBLIC + HELPERS)
     rep.ok("R15.8", f"{len(PUBLIC + HELPERS)} solver functions scanned for stale loop temporaries")
     r159(ctx, rep)
+    rep.rule("R15.10", "the subproblem data (bounds, constraint matrices, right-hand sides, radius) reach the solvers through the right parameters (no swapped arguments)")
+    from . import common
+    k2 = common.check_swapped_args(ctx, rep, "R15.10", lambda g: g.module.name.startswith("cobyqa.subsolvers"))
+    if k2 < 8:
+        raise AnalysisError("call sites of the subproblem solvers not found")
